@@ -504,6 +504,13 @@ def c03(run, an=None, tk=None):
         prev = (cur, s.gen)
     # PUBRELs on a connection follow the release order at connection start
     out += order_check_rel(run, an, tk)
+    # a successful PUBREC whose PUBREL cannot be queued drops the exchange: no PUBREL is ever sent
+    # (the send window keeps the release list from filling: Theorems/C06.lean, C06_pubrec_has_room_partial)
+    for st in run.steps:
+        if any(re.match(r"ret (poll|recv|drive) err Resource.InflightExhausted", e) for e in st.events):
+            for (when, side, p) in an.events:
+                if side == "S" and when[0] == st.idx and p["type"] == "PUBREC" and norm_rc(p["rc"]) < 0x80:
+                    out.append(V("C03", "pubrel-never-sent", f"successful PUBREC {p['id']} consumed but its PUBREL could not be queued (InflightExhausted): the exchange is dropped", step=st.idx))
     return out
 
 
@@ -639,6 +646,13 @@ def c04(run, an=None):
                 else:
                     out.append(V("C04", "ack-order", f"sent {p['type']} id {p['id']} rc {p['rc']:#x}, owed {head}", step=when[0]))
     c04._resent = None
+    # a broker stream of valid packets that contains a PUBLISH must not end in the invalid-packet
+    # error: the PUBLISH it was cut at (or the ones behind it) is never surfaced
+    for v in valid_stream_rejected(run, an, "C04"):
+        t = int(re.search(r"transport (\d+)", v["detail"]).group(1))
+        pk, _, _ = parse_server_stream(bytes(run.nets[t]["rx"]))
+        if any(p["type"] == "PUBLISH" for p in pk):
+            out.append(v)
     return out
 
 
@@ -1395,6 +1409,29 @@ def connection_end(run, t):
 FATAL = re.compile(r"ret (\w+) err (Transport\.\w+|Disconnected|Peer\.InvalidPacket) @")
 
 
+
+def dead_by_history(run):
+    """Indices of the steps at whose start the connection handle is dead according to what the client
+    itself reported earlier (a fatal result, or a completed/failed disconnect) — not according to its
+    own `is_connected()`."""
+    out = set()
+    dead = False
+    for st in run.steps:
+        if any(e.startswith("net ") for e in st.events):
+            dead = False
+        if dead:
+            out.add(st.idx)
+        for e in st.events:
+            m = FATAL.match(e)
+            if m and m.group(1) != "connect" and st.state is not None and st.state.live != "-":
+                dead = True
+            if e.startswith("ret disconnect ok") or e.startswith("ret disconnect err Transport") or e.startswith("ret disconnect err WriteZero"):
+                if st.state is not None and st.state.live != "-":
+                    dead = True
+        if st.op in ("drop",) or any(e == "drop" for e in st.events):
+            dead = False
+    return out
+
 def c11(run, an=None):
     out = []
     dead = False
@@ -1563,6 +1600,9 @@ def c16(run, an=None):
         for v in sent_check(run, an, tk, "C16", kind)[:1]:
             v["kind"] = "marked-sent-but-never-transmitted"
             out.append(v)
+    # "every pending publish, subscribe and unsubscribe completes": the broker's final acknowledgement
+    # was consumed but the operation stays in flight — no amount of polling will complete it
+    out += ack_effects(run, an, tk, "C16", ("PUBACK", "PUBREC", "PUBCOMP", "SUBACK", "UNSUBACK"))[:3]
     b = benign_start(run)
     if b is not None and run.steps and run.ended is None:
         # (1) blocked on input while outbound work is pending: the operation waits for the broker
@@ -1666,6 +1706,12 @@ def c17(run, an=None, tk=None):
             out.append(V("C17", "arena-overflow", s.raw, step=st.idx))
         if s.live == "1" and not s.ret and not s.rel and s.q != s.qmax:
             out.append(V("C17", "slot-leak", f"nothing is in flight but the send quota is {s.q} of {s.qmax}: {s.raw}", step=st.idx))
+    # an entry marked sent for which no identifier-bearing packet was ever written on this connection
+    # can never be acknowledged: its arena bytes and its slot are lost for good
+    for kind in ("PUBLISH1", "PUBLISH2", "SUBSCRIBE", "UNSUBSCRIBE"):
+        for v in sent_check(run, an, tk, "C17", kind)[:1]:
+            v["kind"] = "entry-can-never-be-acknowledged"
+            out.append(v)
     return out
 
 
@@ -1851,13 +1897,20 @@ def c19(run, an=None):
                     out.append(V("C19", "legal-request-refused", f"{st.directive} -> {r}", step=st.idx, finding="F11"))
         if st.state is not None:
             prev = st
-    # requests on a dead handle leave nothing behind
+    # requests on a dead handle are refused with the disconnected error and leave nothing behind
+    # (dead = the client reported a fatal result earlier on this connection, whatever it claims now)
     prev = None
+    deadset = dead_by_history(run)
     for st in run.steps:
-        if st.op in ("publish", "subscribe", "unsubscribe") and st.state is not None and prev is not None and prev.state is not None and prev.state.live == "0":
+        if st.op in ("publish", "subscribe", "unsubscribe") and st.state is not None and prev is not None and prev.state is not None \
+                and (prev.state.live == "0" or st.idx in deadset) and st.state.live != "-":
             a, b = prev.state, st.state
             if (a.ret_ids(), a.rel_ids(), a.q, a.pid) != (b.ret_ids(), b.rel_ids(), b.q, b.pid) or len(prev.h) != len(st.h):
                 out.append(V("C19", "dead-handle-request-left-trace", f"{st.directive[:80]}: {a.raw} -> {b.raw}", step=st.idx))
+            for e in st.rets():
+                m = re.match(r"ret (publish|subscribe|unsubscribe) (ok|err) ?(\S*)", e)
+                if m and not (m.group(2) == "err" and m.group(3) in ("Disconnected", "InvalidRequest", "NoConnection")):
+                    out.append(V("C19", "dead-handle-request-not-refused", f"{st.directive[:80]} -> {e}", step=st.idx))
         if st.state is not None:
             prev = st
     # the returned handle matches the QoS actually used
